@@ -10,6 +10,7 @@ package PKGNAME
 
 import (
 	"bytes"
+	"encoding/xml"
 	dbsql "database/sql"
 	"io"
 	"net/http"
@@ -83,7 +84,7 @@ func verifC06ULID(n int) string {
 	return id.String()
 }
 
-func VerifC06ListObjectsPaginate() {
+func verifC06Stack() (*Server, database.Database) {
 	verifUlidSeq, verifClockSeq = 0, 0
 	db := verifNewDB()
 	b, err := repositoryfactory.NewBucketRepository(db)
@@ -100,19 +101,15 @@ func VerifC06ListObjectsPaginate() {
 	verifMust(err)
 	st, err := metadatapart.NewStorageWithNamedPartStores(db, ms, verifC06NoParts{}, nil, nil)
 	verifMust(err)
-	s := &Server{requestAuthorizer: verifC06Allow{}, storage: st, tracer: otel.Tracer("verif")}
+	return &Server{requestAuthorizer: verifC06Allow{}, storage: st, tracer: otel.Tracer("verif")}, db
+}
 
-	// a set of distinct keys from the menu: key i is present or not
-	var keys []string
+func verifC06Insert(db database.Database, keys []string) {
 	verifMust(database.WithTx(verifBg, db, nil, func(ctx contextT, tx database.Tx) error {
 		_, err := tx.SqlTx().ExecContext(ctx, "INSERT INTO buckets (id, name, created_at, updated_at, versioning_status) VALUES ($1, $2, $3, $4, $5)",
 			verifC06ULID(200), "bucket", time.Unix(1600000000, 0).UTC(), time.Unix(1600000000, 0).UTC(), (*string)(nil))
 		verifMust(err)
-		for i, k := range verifC06Keys {
-			if !verifBool("present") {
-				continue
-			}
-			keys = append(keys, k)
+		for i, k := range keys {
 			null := "null"
 			_, err := tx.SqlTx().ExecContext(ctx, "INSERT INTO objects (id, bucket_name, key, etag, size, upload_status, upload_id, created_at, updated_at, version_id, is_delete_marker, is_latest, optimistic_lock_version) VALUES ($1, $2, $3, $4, $5, $6, $7, $8, $9, $10, $11, $12, $13)",
 				verifC06ULID(i+1), "bucket", k, "e", int64(1), "COMPLETED", (*string)(nil), time.Unix(1600000001, 0).UTC(), time.Unix(1600000001, 0).UTC(), &null, false, true, int64(1))
@@ -120,6 +117,111 @@ func VerifC06ListObjectsPaginate() {
 		}
 		return nil
 	}))
+}
+
+// response capture: writeXMLResponse is redirected to this under the executor;
+// natively the real XML is written and parsed back
+var verifC06LastXML any
+
+func verifStubWriteXML(w http.ResponseWriter, r *http.Request, statusCode int, response any) {
+	verifC06LastXML = response
+	w.WriteHeader(statusCode)
+}
+
+type verifC06Writer struct {
+	h      http.Header
+	status int
+	body   []byte
+}
+
+func (w *verifC06Writer) Header() http.Header { return w.h }
+func (w *verifC06Writer) WriteHeader(s int)   { w.status = s }
+func (w *verifC06Writer) Write(p []byte) (int, error) {
+	w.body = append(w.body, p...)
+	return len(p), nil
+}
+
+// VerifC06HandlerParams: the two list handlers resolve their paging parameters as
+// S3 does: ListObjectsV2 resumes after the continuation token when one is sent
+// (start-after only seeds the first page), ListObjects resumes after the marker.
+func VerifC06HandlerParams() {
+	s, db := verifC06Stack()
+	keys := []string{"k1", "k2", "k3", "k4", "k5"}
+	verifC06Insert(db, keys)
+	v2 := verifBool("v2")
+	sa := verifPick("start-after", 0, 2) // 0 absent, else k<sa>
+	tok := verifPick("resume-after", 0, 3)
+	q := "max-keys=2"
+	resume := 0
+	if v2 {
+		q += "&list-type=2"
+	}
+	if sa > 0 {
+		q += "&start-after=k" + string(rune('0'+sa))
+		resume = sa
+	}
+	if tok > 0 {
+		if v2 {
+			q += "&continuation-token=k" + string(rune('0'+tok))
+		} else {
+			q += "&marker=k" + string(rune('0'+tok))
+		}
+		resume = tok
+	}
+	r := &http.Request{Method: "GET", Header: http.Header{}, URL: &url.URL{Path: "/bucket", RawQuery: q}, Host: "s3.example", RemoteAddr: "10.0.0.1:1"}
+	r.SetPathValue(bucketPath, "bucket")
+	w := &verifC06Writer{h: http.Header{}}
+	verifC06LastXML = nil
+	if v2 {
+		s.listObjectsV2Handler(w, r)
+	} else {
+		s.listObjectsHandler(w, r)
+	}
+	verifAssert(w.status == 200, "C06: a plain list request failed")
+	var got []string
+	truncated := false
+	if verifNative() {
+		var res ListBucketV2Result // both results share the element names read here
+		verifMust(xml.Unmarshal(w.body, &res))
+		for _, c := range res.Contents {
+			got = append(got, c.Key)
+		}
+		truncated = res.IsTruncated
+	} else if v2 {
+		res := verifC06LastXML.(ListBucketV2Result)
+		for _, c := range res.Contents {
+			got = append(got, c.Key)
+		}
+		truncated = res.IsTruncated
+	} else {
+		res := verifC06LastXML.(ListBucketResult)
+		for _, c := range res.Contents {
+			got = append(got, c.Key)
+		}
+		truncated = res.IsTruncated
+	}
+	var want []string
+	for i := resume; i < len(keys) && len(want) < 2; i++ {
+		want = append(want, keys[i])
+	}
+	verifAssert(len(got) == len(want), "C06: the page does not resume after the marker / continuation token it was given")
+	for i := range got {
+		verifAssert(got[i] == want[i], "C06: the page does not resume after the marker / continuation token it was given")
+	}
+	verifAssert(truncated == (resume+2 < len(keys)), "C06: IsTruncated does not say whether keys remain")
+	verifCover("handler-params")
+}
+
+func VerifC06ListObjectsPaginate() {
+	s, db := verifC06Stack()
+	// a set of distinct keys from the menu: key i is present or not
+	var keys []string
+	for _, k := range verifC06Keys {
+		if verifBool("present") {
+			keys = append(keys, k)
+		}
+	}
+	verifC06Insert(db, keys)
 	verifAssume(len(keys) >= 2)
 	prefix := []string{"", "a", "a/", "b"}[verifPick("prefix", 0, 3)]
 	delimiter := []string{"", "/"}[verifPick("delimiter", 0, 1)]
